@@ -37,12 +37,13 @@ CLAIMS = {
         "The binary decoding path is under contract function by function: parseTag; bitstream.Next against the Ion binary type-descriptor table "
         "(all 256 descriptor octets, inline and VarUInt lengths, sorted structs, typed nulls, booleans, NOP pads, version markers only at top level); "
         "readVarUintLen/skipVarUintLen/readVarIntLen against closed-form VarUInt/VarInt specification functions; ReadInt, ReadSymbolID, ReadFloat, "
-        "ReadString, ReadBytes, ReadBVM, ReadFieldID against big-endian/IEEE specification functions; SkipValue/StepIn/StepOut and the "
+        "ReadString, ReadBytes, ReadBVM, ReadFieldID against big-endian/IEEE specification functions; readDecimal/readBigInt (exponent, sign, negative zero "
+        "only for a zero magnitude with the sign bit), ReadTimestamp (loop invariant), the annotation wrapper's length re-validation; SkipValue/StepIn/StepOut and the "
         "representation invariant of the container stack; binaryReader.next's descriptor-to-Ion-type table, NOP-pad skipping and version-marker "
         "handling. Every clause is proved for all inputs (bit-precise 64-bit arithmetic, ghost model of the buffered input stream).",
         "Per-function proofs; the composition into whole-stream decoding is by the chain of contracts, not machine-checked as one theorem. "
-        "Trusted (assumed, listed in evidence): ReadDecimal, ReadTimestamp, ReadAnnotations and readLocalSymbolTable are thin assumed contracts "
-        "for their callers; math/big as integers; bufio/io through the ghost stream model.",
+        "Trusted (assumed, listed in evidence): ReadAnnotations and readLocalSymbolTable are thin assumed contracts for their callers (decimals, "
+        "timestamps and the annotation wrapper's length re-validation are proved); math/big as integers; bufio/io through the ghost stream model.",
         "DESIGN.md section 7 C03"),
     "C04": (
         "Every pre-computed length function of the binary writer (uintLen, intLen, varUintLen, varIntLen, tagLen) is proved equal, for all "
@@ -162,7 +163,8 @@ CLAIMS = {
         "hour offsets of 24 or more and minute offsets of 60 or more and classifies Z, -00:00 and non-zero offsets.",
         "Not decided: Timestamp.String / ParseTimestamp round trips, Layout selection, fraction rounding (readNsecs and roundFractionalSeconds "
         "are outside the subset: strconv/time formatting), calendar validity beyond the field ranges (time.Date is an abstract function). "
-        "readNsecs is a trusted thin contract; time.Time getters are trusted ranged functions.",
+        "readNsecs is proved (consumes exactly its length, never reaches Decimal.ShiftL outside its precondition) with Decimal.trunc/round as thin assumed "
+        "contracts; time.Time getters are trusted ranged functions.",
         "DESIGN.md section 7 C15"),
     "C16": (
         "The kind dispatch of both directions is under contract. Encoder.encodeValue hands every Go value to the Writer method of its Ion type "
